@@ -26,20 +26,29 @@ def sim_cases(draw, max_tasks: int = 10, max_hosts: int = 4, max_workers: int = 
     for _ in range(nh):
         k = draw(st.integers(2 if fanout else 1, max(2, max_workers) + (1 if fanout else 0)))
         cluster.append({"workers": k, "gpu": [draw(st.integers(0, 3)) == 0 for _ in range(k)]})
+    if fanout and any(t["gpu"] for t in spec["tasks"]):
+        # hosts that have both kinds of workers, so that a GPU consumer and a CPU consumer of one dataset can be placed on the same
+        # remote host in the same assignment phase
+        small = draw(st.booleans())
+        for h in cluster:
+            if small or draw(st.integers(0, 3)) != 0:
+                if small:
+                    h["workers"] = 2  # one worker of each kind: more consumers of either kind than workers next to the data
+                h["gpu"] = [True] + [False] * (h["workers"] - 1)
     if any(t["gpu"] for t in spec["tasks"]) and not any(any(h["gpu"]) for h in cluster):
         hi = draw(st.integers(0, nh - 1))
         wi = draw(st.integers(0, cluster[hi]["workers"] - 1))
         cluster[hi]["gpu"][wi] = True
     if bias == "replication" and spec["tasks"]:
         # requested outputs that also have consumers (on other hosts): make every consumed dataset an ext output sometimes
-        if draw(st.booleans()):
+        if draw(st.integers(0, 2)) == 0:
             cons = sorted({(e[0], e[1]) for e in spec_edges(spec)})
             spec["ext"] = [list(c) for c in cons] + [e for e in spec["ext"] if tuple(e) not in cons]
     decisions = draw(st.lists(st.integers(0, 1 << 16), max_size=60))
     tail = draw(st.integers(0, 1 << 30))
     inject = draw(st.one_of(st.none(), st.none(), st.none(), st.integers(1, 6)))
     return {"job": spec, "cluster": cluster, "decisions": decisions, "tail_seed": tail, "inject": inject,
-            "slow_data": bias == "replication" and draw(st.booleans())}
+            "slow_data": draw(st.sampled_from([False, True, "dups"])) if bias == "replication" else False}
 
 
 @st.composite
@@ -50,6 +59,7 @@ def fanout_specs(draw, max_tasks: int = 10):
 
     nprod = draw(st.integers(1, 2))
     ncons = draw(st.integers(2, max(2, max_tasks - nprod - 1)))
+    gpu_mix = draw(st.booleans())  # some consumers need a GPU, the others do not
     tasks = []
     for i in range(nprod):
         outs = draw(st.sampled_from([["__default__"], ["0", "1"]]))
@@ -60,7 +70,8 @@ def fanout_specs(draw, max_tasks: int = 10):
         if draw(st.integers(0, 3)) == 0:
             src2 = draw(st.integers(0, len(tasks) - 1))
             args.append({"e": [src2, draw(st.sampled_from(tasks[src2]["outs"]))]})
-        tasks.append({"name": task_name(nprod + j), "outs": ["__default__"], "gpu": False, "args": args, "kwargs": {}, "placeholders": False})
+        tasks.append({"name": task_name(nprod + j), "outs": ["__default__"], "gpu": bool(gpu_mix and draw(st.booleans())), "args": args,
+                      "kwargs": {}, "placeholders": False})
     ext = []
     for i, t in enumerate(tasks):
         for o in t["outs"]:
@@ -77,7 +88,7 @@ def run_sim(case: dict):
         ch = Chooser(prefix=case["log"], tail_seed=None)
     else:
         ch = Chooser(prefix=case["decisions"], tail_seed=case["tail_seed"])
-    res = simulate(job, case["cluster"], ch, case.get("inject"), slow_data=bool(case.get("slow_data")))
+    res = simulate(job, case["cluster"], ch, case.get("inject"), slow_data=case.get("slow_data") or False)
     res["job"] = job
     res["chooser"] = ch
     return res
